@@ -409,6 +409,28 @@ class SymReal:
         raise TypeError('float() of a symbolic value (silent concretisation refused)')
 
 
+def _broadcast(name):
+    base = getattr(SymReal, name)
+
+    def op(self, o):
+        try:
+            import numpy as np
+            if isinstance(o, np.ndarray):
+                out = np.empty(o.shape, dtype=object)
+                for idx, x in np.ndenumerate(o):
+                    out[idx] = base(self, x.item() if hasattr(x, 'item') and not isinstance(x, (SymReal, SymBool)) else x)
+                return out
+        except ImportError:  # pragma: no cover
+            pass
+        return base(self, o)
+    op.__name__ = name
+    return op
+
+
+for _n in ('__add__', '__radd__', '__sub__', '__rsub__', '__mul__', '__rmul__', '__truediv__', '__rtruediv__'):
+    setattr(SymReal, _n, _broadcast(_n))
+
+
 class SymRealF(SymReal, float):
     """float-subclass flavour (payload NaN) passing ``isinstance(x, float)``."""
 
